@@ -41,7 +41,10 @@ impl ByteCompiler<'_> {
                 );
                 TryVariant::CatchFinally((catch, finally, finally_re_throw, finally_jump_index))
             }
-            (Some(catch), None) => TryVariant::Catch(catch),
+            (Some(catch), None) => {
+                self.push_try_catch_control_info(use_expr);
+                TryVariant::Catch(catch)
+            }
             (None, Some(finally)) => {
                 let finally_re_throw = self.register_allocator.alloc();
                 let finally_jump_index = self.register_allocator.alloc();
@@ -79,6 +82,7 @@ impl ByteCompiler<'_> {
                 self.compile_catch_stmt(c, &error, use_expr);
                 self.register_allocator.dealloc(error);
                 self.patch_jump(finally);
+                self.pop_try_catch_control_info();
             }
             TryVariant::CatchFinally((c, f, finally_re_throw, finally_jump_index)) => {
                 let catch_handler = self.push_handler();
